@@ -25,7 +25,12 @@ PLANTS = [(6, 7, 8), (19, 21, 23), (20, 30, 12), (33, 9, 40), (12, 37, 35), (34,
 DIAG_BASE = [(8, 9, 10), (19, 21, 23), (28, 12, 34), (12, 32, 30)]
 
 
+SLAB_PLANTS = [(1.5, 12.0, 12.0), (1.5, 30.0, 34.0), (1.5, 14.0, 36.0)]
+
+
 def _plants(case):
+    if case.get("layout") == "slab":
+        return list(SLAB_PLANTS)
     if case.get("layout") != "diagonal":
         return list(PLANTS)
     off = case["corner"]
@@ -76,8 +81,12 @@ def replay(case) -> dict:
         picker = pick.ZNCCTemplateMatcher(tmpl, rotation=rots)
         kw = dict(min_distance=(6.0 if diag else 4.0) * scale, min_score=0.6)
     else:
-        img = _blobs(shape, plants, 0.8 if diag else 1.6)
-        picker = pick.LoGPicker(sigma=(2.5 if diag else 1.6) * scale) if kind == "LoG" else pick.DoGPicker(sigma_low=1.6 * scale, sigma_high=2.6 * scale)
+        slab = case.get("layout") == "slab"
+        img = _blobs(shape, plants, 1.2 if slab else (0.8 if diag else 1.6))
+        if slab:      # a slab thinner than the overlap depth (2 sigma = 6 px > 4 px)
+            picker = pick.LoGPicker(sigma=3.0 * scale) if kind == "LoG" else pick.DoGPicker(sigma_low=3.0 * scale, sigma_high=4.5 * scale)
+        else:
+            picker = pick.LoGPicker(sigma=(2.5 if diag else 1.6) * scale) if kind == "LoG" else pick.DoGPicker(sigma_low=1.6 * scale, sigma_high=2.6 * scale)
         kw = {}
     if case["dtype"] == "uint8":
         img = np.round(img / img.max() * 200).astype(np.uint8)
@@ -110,10 +119,16 @@ def replay(case) -> dict:
 
 def run(rep: engine.Report, tier: str, seed: int):
     mc = rep.add_tlc(engine.tlc("MC_C20", "MC_C20", workers=1, timeout=900))
-    fams = mc.emitted
-    if not fams:
+    slabs = [f for f in mc.emitted if f.get("slab")]
+    fams = [f for f in mc.emitted if not f.get("slab")]
+    if not fams or not slabs:
         raise engine.MachineryError("MC_C20 emitted no chunk families")
     cases = []
+    for picker in ("LoG", "DoG"):
+        for sc in (1.0, 0.5):
+            cases.append(dict(extents=slabs[0]["extents"], chunks=[[n] for n in slabs[0]["extents"]], picker=picker, scale=sc, as_numpy=True, dtype="float32", layout="slab"))
+            for f in slabs:
+                cases.append(dict(extents=f["extents"], chunks=f["chunks"], picker=picker, scale=sc, as_numpy=False, dtype="float32", layout="slab"))
     for picker in ("LoG", "DoG", "ZNCC"):
         for scale in ((1.0, 0.5) if tier == "quick" else (1.0, 0.5, 2.0)):
             cases.append(dict(extents=fams[0]["extents"], chunks=[[n] for n in fams[0]["extents"]], picker=picker, scale=scale, as_numpy=True, dtype="float32"))
@@ -130,7 +145,7 @@ def run(rep: engine.Report, tier: str, seed: int):
     engine.collect(rep, cases, results, key=lambda c: c)
     rep.exhaustive = True
     rep.traces_validated = len(cases)
-    memo.run_family(rep, ["matcher_provider_scales"])
+    memo.run_family(rep, ["matcher_provider_scales", "log_sigma_pairs"])
     rep.samples = cases[:2]
     rep.rule = (
         "TLC: every extent 6..24 x depth 1..6 x every partition into <= 3 chunks (each >= depth) x every particle voxel: each particle "
@@ -138,7 +153,7 @@ def run(rep: engine.Report, tier: str, seed: int):
         f"(interior, next to chunk boundaries, near faces) in a 40x44x48 image picked by LoG / DoG / ZNCC template matcher (3 searched "
         f"rotations, planted rotated templates) as numpy and under {len(fams)} dask chunk families (incl. chunks smaller than the overlap "
         f"depth, which dask merges), scales, uint8 input; plus a diagonal layout (pairs at the corner offset of the cube enclosing "
-        f"the exclusion ball, from TLC) for LoG and the template matcher; {len(cases)} cases"
+        f"the exclusion ball, from TLC) for LoG and the template matcher, and a slab thinner than the overlap depth; {len(cases)} cases"
     )
 
 
